@@ -212,12 +212,28 @@ def job_locate(cfg):
         interior = V[0] + sum((V[j] - V[0]) * lam[i] for i, j in enumerate(nb))
     edge = V[0] * (1 - tau) + V[1] * tau
     node = V[2]
+    shift = None
+    if cfg.get("moved"):
+        # the mesh is used first (caches of every matrix type warmed, a point located), THEN translated by a symbolic vector
+        # with a non-zero out-of-plane component; the queries are the translated points, the nodal field is unchanged
+        from EasyFEA.FEM import MatrixType
+
+        _ = mesh.center, (mesh.area if dim == 2 else mesh.volume)
+        for mt in (MatrixType.mass, MatrixType.rigi):
+            g.Get_invF_e_pg(mt), g.Get_jacobian_e_pg(mt), g.Get_dN_e_pg(mt)
+        mesh.Evaluate_dofsValues_at_coordinates(np.array([X[conn[:nv]].mean(axis=0)]), np.zeros(mesh.Nn), elements=np.array([e0]))
+        shift = [c.var("tx", -1, 1), c.var("ty", -1, 1), c.var("tz", Fraction(1, 10), 1)]
+        with facade.symbolic():
+            mesh.Translate(*shift)
+        key += " after an out-of-plane translation (warm caches)"
+        res.functions |= {"Mesh.Translate", "_GroupElem.coord (setter)", "Utilities._cache"}
     lam2 = [c.var(f"mu{i}", Fraction(1, 20), Fraction(1, 4), shadow=Fraction(1, 9 + i)) for i in range(dim)]
     if et.startswith(("TRI", "TETRA")):
         interior2 = V[0] * (1 - sum(lam2)) + sum(V[i + 1] * lam2[i] for i in range(dim))
     else:
         interior2 = V[0] + sum((V[j] - V[0]) * lam2[i] for i, j in enumerate(nb))
-    pts = np.array([interior, edge, node, interior2], dtype=object)
+    pts0 = np.array([interior, edge, node, interior2], dtype=object)
+    pts = pts0 if shift is None else np.array([[p[k] + shift[k] for k in range(3)] for p in pts0], dtype=object)
     labels = ["interior point", "point on an edge", "point on a node", "second interior point"]
     mark = c.mark()
     from engine.sym import OutOfReach, Concretised
@@ -228,10 +244,22 @@ def job_locate(cfg):
     def concrete(env, idx):
         cf = [fval(env, x) for x in coef]
         P = np.array([[fval(env, x) for x in pts[i]] for i in idx])
+        P0 = np.array([[fval(env, x) for x in pts0[i]] for i in idx])
         nod = np.array([sum(cc * np.prod([X[n, dd] ** e for dd, e in enumerate(m)]) for cc, m in zip(cf, monos)) for n in range(mesh.Nn)])
-        want = np.array([sum(cc * np.prod([p[dd] ** e for dd, e in enumerate(m)]) for cc, m in zip(cf, monos)) for p in P])
+        want = np.array([sum(cc * np.prod([p[dd] ** e for dd, e in enumerate(m)]) for cc, m in zip(cf, monos)) for p in P0])
+        mesh_c = mesh
+        if shift is not None:
+            from EasyFEA.FEM import MatrixType as _MT
+
+            mesh_c = simlib.small_mesh({"TRI3": "tri4", "TRI6": "tri6_2", "TETRA4": "tetra2"}[et]) if et in ("TRI3", "TRI6", "TETRA4") else simlib.gmsh_mesh(et, layers=1)
+            gc = mesh_c.groupElem
+            _ = mesh_c.center
+            for mt in (_MT.mass, _MT.rigi):
+                gc.Get_invF_e_pg(mt), gc.Get_jacobian_e_pg(mt), gc.Get_dN_e_pg(mt)
+            mesh_c.Evaluate_dofsValues_at_coordinates(np.array([X[conn[:nv]].mean(axis=0)]), np.zeros(mesh_c.Nn), elements=np.array([e0]))
+            mesh_c.Translate(*[fval(env, t_) for t_ in shift])
         try:
-            got = mesh.Evaluate_dofsValues_at_coordinates(P, nod, elements=np.array([e0]))[:, 0]
+            got = mesh_c.Evaluate_dofsValues_at_coordinates(P, nod, elements=np.array([e0]))[:, 0]
         except Exception as e:
             return True, {"query_points": P.tolist(), "raised": repr(e)[:200]}
         err = float(np.abs(got - want).max())
@@ -254,7 +282,7 @@ def job_locate(cfg):
             continue
         pcs = c.pc_since(mark)
         for k, i in enumerate(idx):
-            want = field(list(pts[i][:dim]))
+            want = field(list(pts0[i][:dim]))
             res.record(f"{key}: {labels[i]} in batch [{lab}]", prove_abs_le(as_sym(val[k, 0]) - want, TOL, pcs, key), lambda env, idx=idx: concrete(env, idx),
                        key=f"{key} batch of {len(idx)} points",
                        sample=None if len(res.samples) else {"config": key, "obligation": f"for all query points in the element (barycentric box) and all degree-{order} polynomial fields: interpolated value == polynomial",
@@ -265,7 +293,7 @@ def job_locate(cfg):
         res.notes.append(f"{key}: every batch is outside the claim (iterative inverse map)")
         return res
     batch = val
-    o = prove_abs_le(as_sym(batch[0, 0]) - field(list(pts[0][:dim])) - coef[0], TOL, pcs, "twin") if res.obligations else Outcome("cex")
+    o = prove_abs_le(as_sym(batch[0, 0]) - field(list(pts0[0][:dim])) - coef[0], TOL, pcs, "twin") if res.obligations else Outcome("cex")
     res.twin(f"{key} twin", o.status == "cex")
     res.stubs |= facade.USED_STUBS
     return res
@@ -287,6 +315,14 @@ def main():
             configs.append({"kind": "motion", "elem": et, "motion": m})
     for et in ["TRI3", "TRI6", "TETRA4"] + (["TRI10", "TRI15", "TETRA10", "QUAD4", "HEXA8", "PRISM6"] if tier == "thorough" else ["TRI10"]):
         configs.append({"kind": "locate", "elem": et})
+    for et in ["TRI3", "TRI6", "TETRA4"] + (["TRI10", "TETRA10"] if tier == "thorough" else []):
+        configs.append({"kind": "locate", "elem": et, "moved": True})
+    # elements whose first edge is not along x: their local frame (_Get_sysCoord_e) differs from the global one once the mesh leaves z = 0
+    configs.append({"kind": "locate", "elem": "TRI3", "moved": True, "element": 1})
+    configs.append({"kind": "locate", "elem": "TRI6", "moved": True, "element": 1})
+    if tier == "thorough":
+        configs.append({"kind": "locate", "elem": "TRI3", "moved": True, "element": 2})
+        configs.append({"kind": "locate", "elem": "TRI10", "moved": True, "element": 3})
     results = harness.run_jobs(job, configs)
     harness.finish(
         PID, results, t0=t0,
